@@ -76,3 +76,15 @@ _p("C15", "other",
    "shape<->element round trip is proved. Because the typestate analysis is a purpose-built conservative checker, every failure is confirmed by a native "
    "witness history. Exhaustive short histories against serialise/re-parse are the bounded part (labelled bounded).",
    [LXML, CPY])
+
+_p("C16", "other",
+   "Static frame/effect obligations over every function of the package (no post-import writes to module state, no nondeterministic sources, set-typed "
+   "values only meet order-insensitive consumers, hash-ordered slots never iterated, memo cleared before use, no mutated mutable defaults): together with "
+   "the determinism of lxml/Skia/CPython (assumed) they make the output a function of input bytes and options. Conservative checker: every failure is "
+   "confirmed by a hash-seed / batch-order replay where one exists. The replay itself is the bounded part (labelled bounded).",
+   [LXML, PATHOPS, CPY])
+_p("C17", "other",
+   "Static loop inventory: every while loop and recursion in the package has a recorded variant whose shape is re-checked on the real AST (a new or changed "
+   "loop fails), argument regexes cannot match the empty string, the XML parser never resolves entities. 'Time proportional to the expanded size' is not "
+   "decided. Adversarial documents under a watchdog are the bounded part (labelled bounded).",
+   [LXML, CPY, RE])
